@@ -55,3 +55,25 @@ impl VKey for (u8, std::net::SocketAddr) {
         ((self.0 as u64) << 48) | self.1.vkey()
     }
 }
+
+/// Opaque identifier standing in for a value the sliced code only copies, compares and uses as a map/set key
+/// (a socket address, a data-centre or keyspace name) where the real type drags byte-level reasoning
+/// (memcmp, enum-in-union layouts, heap strings) into CBMC.
+#[derive(Clone, Copy, PartialEq, Eq, PartialOrd, Ord, Debug, Hash, Default)]
+pub struct OpaqueId(pub u64);
+impl VKey for OpaqueId {
+    fn vkey(&self) -> u64 {
+        self.0
+    }
+}
+impl VKey for (u8, OpaqueId) {
+    fn vkey(&self) -> u64 {
+        assert!(self.1 .0 < (1u64 << 56), "vcoll: opaque ids paired with a u8 must fit 56 bits");
+        ((self.0 as u64) << 56) | self.1 .0
+    }
+}
+impl crate::Havoc for OpaqueId {
+    fn havoc() -> Self {
+        OpaqueId(<u64 as crate::Havoc>::havoc())
+    }
+}
